@@ -356,6 +356,97 @@ Section Abscissa2.
       rewrite dotR_add_r by (rewrite !map_length; lia).
       rewrite !dotR_scale_r, (dotR_comm c dbs), (dotR_comm c d2bs). cbn. ring.
   Qed.
+
+  (* Dual2 coefficients AND a Dual2 abscissa (PPSpline<Dual2>::ppdnev_single_dual2) *)
+  Lemma gdot_d2d2_acc (c : list (dual2 R)) : forall Ds acc, Forall wf2 c -> Forall wf2 Ds -> wf2 acc ->
+    let r := fold_left (fun acc p => d2add false acc (d2mul false (fst p) (snd p))) (combine c Ds) acc in
+    wf2 r /\ re2 r = re2 acc + dotR (map (@re2 R) c) (map (@re2 R) Ds) /\
+    (forall v, coef1 r v = coef1 acc v + dotR (map (fun d => coef1 d v) c) (map (@re2 R) Ds)
+                           + dotR (map (@re2 R) c) (map (fun d => coef1 d v) Ds)) /\
+    forall u v, coef2 r u v = coef2 acc u v + dotR (map (fun d => coef2 d u v) c) (map (@re2 R) Ds)
+                  + dotR (map (@re2 R) c) (map (fun d => coef2 d u v) Ds)
+                  + / 2 * (dotR (map (fun d => coef1 d u) c) (map (fun d => coef1 d v) Ds)
+                           + dotR (map (fun d => coef1 d v) c) (map (fun d => coef1 d u) Ds)).
+  Proof.
+    induction c as [|ci c IH]; intros Ds acc Wc WDs Wacc.
+    - cbn. split; [exact Wacc|]. split; [ring|]. split; intros; ring.
+    - destruct Ds as [|D Ds].
+      + cbn. split; [exact Wacc|]. split; [ring|]. split; intros; ring.
+      + inversion WDs as [|? ? WD WDs']; subst. inversion Wc as [|? ? Wci Wc']; subst.
+        cbn [combine fold_left fst snd map dotR].
+        destruct (d2mul_spec false ci D Wci WD ltac:(discriminate)) as (WM & RM & C1M & C2M & _).
+        destruct (d2add_spec false acc (d2mul false ci D) Wacc WM ltac:(discriminate)) as (W1 & R1 & C11 & C21 & _).
+        destruct (IH Ds (d2add false acc (d2mul false ci D)) Wc' WDs' W1) as (W2 & R2 & C12 & C22).
+        split; [exact W2|]. split; [|split].
+        * rewrite R2, R1, RM. ring.
+        * intros v. rewrite C12, C11, C1M. ring.
+        * intros u v. rewrite C22, C21, C2M. ring.
+  Qed.
+
+  Lemma ppdnev_single_dual2_R (s : @ppspline R (dual2 R)) c x m d :
+    pc s = Some c -> Forall wf2 c -> ppdnev_single xmul_dual2 s x m = Ok d ->
+    exists row, bspldnev_row x (pk s) (pt s) m (pn s) = Ok row /\ length row = length c /\
+                re2 d = dotR row (map (@re2 R) c) /\
+                (forall v, coef1 d v = dotR row (map (fun e => coef1 e v) c)) /\
+                forall u v, coef2 d u v = dotR row (map (fun e => coef2 e u v) c).
+  Proof.
+    intros Hc Wc. unfold ppdnev_single. rewrite Hc.
+    destruct (bspldnev_row x (pk s) (pt s) m (pn s)) as [row| |]; cbn [obind]; try discriminate.
+    unfold fdmul11_, gmul11. destruct (Nat.eqb_spec (length row) (length c)); try discriminate.
+    intros HD. inversion HD as [HD']. exists row. split; auto. split; auto.
+    destruct (gdot_dual2_acc row c d2zero Wc wf2_d2zero) as (W & Rr & C1r & C2r).
+    subst d. unfold gdot. cbn [osum0 ops_dual2]. split; [|split].
+    - rewrite Rr. cbn. ring.
+    - intros v. rewrite C1r. cbn. ring.
+    - intros u v. rewrite C2r. cbn. ring.
+  Qed.
+
+  Lemma ppdnev_d2_dual2_spec (s : @ppspline R (dual2 R)) c m d :
+    pc s = Some c -> Forall wf2 c ->
+    ppdnev_d2_dual2 s X m = Ok d ->
+    exists d0 d1 d2, ppdnev_single xmul_dual2 s (re2 X) m = Ok d0 /\
+                     ppdnev_single xmul_dual2 s (re2 X) (m + 1) = Ok d1 /\
+                     ppdnev_single xmul_dual2 s (re2 X) (m + 2) = Ok d2 /\
+                     wf2 d /\ re2 d = re2 d0 /\
+                     (forall v, coef1 d v = coef1 d0 v + re2 d1 * coef1 X v) /\
+                     forall u v, coef2 d u v = coef2 d0 u v + re2 d1 * coef2 X u v
+                                   + / 2 * re2 d2 * (coef1 X u * coef1 X v)
+                                   + / 2 * (coef1 d1 u * coef1 X v + coef1 d1 v * coef1 X u).
+  Proof.
+    intros Hc Wc. unfold ppdnev_d2_dual2, dual2_row. rewrite Hc.
+    destruct (omapM (fun i => bspldnev_dual2 X i (pk s) (pt s) m None) (seq 0 (pn s))) as [Ds| |] eqn:ED;
+      cbn [obind]; try discriminate.
+    unfold dmul11_, gmul11. destruct (Nat.eqb_spec (length c) (length Ds)) as [L|L]; try discriminate.
+    intros HD. inversion HD as [HD']. clear HD.
+    destruct (dual2_row_spec (pk s) (pt s) m _ Ds ED) as (bs & dbs & d2bs & Hbs & Hdbs & Hd2bs & WDs & RDs & C1s & C2s).
+    pose proof (omapM_length _ _ _ ED) as L1. pose proof (omapM_length _ _ _ Hbs) as L2.
+    pose proof (omapM_length _ _ _ Hdbs) as L3. pose proof (omapM_length _ _ _ Hd2bs) as L4.
+    destruct (gdot_d2d2_acc c Ds d2zero Wc WDs wf2_d2zero) as (W & Rr & C1r & C2r).
+    assert (EX : forall mm row, omapM (fun i => bspldnev (re2 X) i (pk s) (pt s) mm None) (seq 0 (pn s)) = Ok row ->
+                 exists dd, ppdnev_single xmul_dual2 s (re2 X) mm = Ok dd).
+    { intros mm row Hrow. pose proof (omapM_length _ _ _ Hrow) as Lr.
+      unfold ppdnev_single, bspldnev_row. rewrite Hrow. cbn [obind]. rewrite Hc. unfold fdmul11_, gmul11.
+      replace (length row =? length c)%nat with true by (symmetry; apply Nat.eqb_eq; lia). eauto. }
+    destruct (EX m bs Hbs) as [d0 E0]. destruct (EX (m + 1)%nat dbs Hdbs) as [d1 E1].
+    destruct (EX (m + 2)%nat d2bs Hd2bs) as [d2 E2]. exists d0, d1, d2.
+    split; [exact E0|]. split; [exact E1|]. split; [exact E2|].
+    destruct (ppdnev_single_dual2_R s c (re2 X) m d0 Hc Wc E0) as (row0 & Hr0 & _ & R0 & C10 & C20).
+    destruct (ppdnev_single_dual2_R s c (re2 X) (m + 1) d1 Hc Wc E1) as (row1 & Hr1 & _ & R1 & C11 & _).
+    destruct (ppdnev_single_dual2_R s c (re2 X) (m + 2) d2 Hc Wc E2) as (row2 & Hr2 & _ & R2 & _ & _).
+    unfold bspldnev_row in Hr0, Hr1, Hr2. rewrite Hbs in Hr0. rewrite Hdbs in Hr1. rewrite Hd2bs in Hr2.
+    inversion Hr0; subst row0. inversion Hr1; subst row1. inversion Hr2; subst row2.
+    subst d. unfold dot, gdot. cbn [osum0 oadd omul ops_dual2]. split; [exact W|]. split; [|split].
+    - rewrite Rr, RDs, R0. cbn. rewrite (dotR_comm bs). ring.
+    - intros v. rewrite C1r, RDs, C1s, C10, R1.
+      rewrite dotR_scale_r, (dotR_comm _ bs), (dotR_comm _ dbs). cbn. ring.
+    - intros u v. rewrite C2r, RDs, C2s, !C1s, C20, R1, R2, !C11.
+      rewrite dotR_add_r by (rewrite !map_length; lia).
+      rewrite !dotR_scale_r.
+      rewrite (dotR_comm (map (fun d3 => coef2 d3 u v) c) bs), (dotR_comm (map (@re2 R) c) dbs),
+              (dotR_comm (map (@re2 R) c) d2bs), (dotR_comm (map (fun d3 => coef1 d3 u) c) dbs),
+              (dotR_comm (map (fun d3 => coef1 d3 v) c) dbs).
+      cbn. ring.
+  Qed.
 End Abscissa2.
 
 (* ------------------------------------------------------------------ linearity in the data: Dual data *)
